@@ -29,7 +29,7 @@ pub fn props() -> Vec<Prop> {
             id: "C15",
             run: c15,
             tools: None,
-            rule: "each law of the statement is an executable predicate over plain strings / std::path::Component sequences; one-argument helpers on every string up to length 5 (quick) / 8 (thorough) over {/,.,:,a,e-acute,euro}; two-argument helpers on every ordered pair of strings up to length 3 / 5 plus the constructed pairs (s+p, p+s) the inverse laws need; scheme-prefixed strings for trim_protocol; seeded random longer strings with 4-byte characters. distinct_nontrivial = distinct (law, input class, outcome class) triples where the helper did something other than return its input.",
+            rule: "each law of the statement is an executable predicate over plain strings / std::path::Component sequences; one-argument helpers on every string up to length 5 (quick) / 8 (thorough) over {/,.,:,a,e-acute,euro}; two-argument helpers on every ordered pair of strings up to length 3 / 5 plus the constructed pairs (s+p, p+s) the inverse laws need; scheme-prefixed strings for trim_protocol (and look-alike prefixes that only match after a non-ASCII case fold); seeded random longer strings with 4-byte characters. distinct_nontrivial = distinct (law, input class, outcome class) triples where the helper did something other than return its input.",
             assumptions: &["laws on dir/base, first/last are phrased on std::path::Component sequences", "inputs are UTF-8"],
             shards_quick: 8,
             shards_thorough: 16,
@@ -467,7 +467,10 @@ fn c15_single(s: &str, rep: &mut Report) {
     }
 
     // trim_protocol on s and on scheme-prefixed variants
-    for pre in ["", "file://", "FILE://", "ftp://", "http://", "HttpS://", "https://", "file:/", "xfile://", "file://file://", "ssh://"] {
+    // (the last six are NOT schemes: characters whose upper- or lower-case mapping lands on an ASCII letter of a scheme
+    // name - long s, dotless i, the fi ligature, Kelvin sign, I with dot above - only compare equal after a case fold
+    // that is wider than ASCII)
+    for pre in ["", "file://", "FILE://", "ftp://", "http://", "HttpS://", "https://", "file:/", "xfile://", "file://file://", "ssh://", "http\u{17f}://", "f\u{131}le://", "\u{fb01}le://", "HTTP\u{17f}://", "F\u{130}LE://", "\u{212a}ftp://"] {
         rep.eval();
         let t = format!("{}{}", pre, s);
         let exp = ref_trim_protocol(&t);
